@@ -16,7 +16,7 @@ import re
 import sys
 
 sys.path.insert(0, os.path.dirname(os.path.abspath(__file__)))
-from _util import fn_body, read  # noqa: E402
+from _util import _const_int_expr, fn_body, read  # noqa: E402
 
 OUTPUTS = ["TypeOrder.lean"]
 
@@ -86,8 +86,8 @@ def generate(repo):
 
     # ATTR_SCAN_CUTOFF: two cfg-selected definitions inside get_attr
     ga = fn_body(mod, r"fn\s+get_attr<'a>\s*\([^)]*\)\s*->\s*Option<&'a Value>\s*\{")
-    cut = re.findall(r"#\[cfg\((not\()?feature\s*=\s*\"preserve_order\"\)?\)\]\s*const\s+ATTR_SCAN_CUTOFF\s*:\s*usize\s*=\s*([0-9_]+)\s*;", ga)
-    cuts = {("default" if neg else "preserve_order"): int(v.replace("_", "")) for neg, v in cut}
+    cut = re.findall(r"#\[cfg\((not\()?feature\s*=\s*\"preserve_order\"\)?\)\]\s*const\s+ATTR_SCAN_CUTOFF\s*:\s*usize\s*=\s*([^;]+?)\s*;", ga)
+    cuts = {("default" if neg else "preserve_order"): _const_int_expr(v) for neg, v in cut}
     if set(cuts) != {"default", "preserve_order"}:
         raise ValueError(f"ATTR_SCAN_CUTOFF definitions not recognised: {cut}")
     if not re.search(r"m\.len\(\)\s*<=\s*ATTR_SCAN_CUTOFF", ga):
